@@ -323,8 +323,21 @@ func zzC12ToolLookup() {
 		_, err := cs.ListTools(context.Background(), &ListToolsParams{})
 		vAssert(err == nil, "C12.lookup.list-ok")
 	}
-	_, err := cs.CallTool(context.Background(), &CallToolParams{Name: "t", Arguments: map[string]any{"p": "v"}})
+	// the params are the caller's: it may already have put something into _meta, and may use the value again for a call
+	// on another session (of another era): what this session adds for the wire does not end up in it (D20)
+	callerMeta := vBool("callerSuppliedMeta")
+	params := &CallToolParams{Name: "t", Arguments: map[string]any{"p": "v"}}
+	if callerMeta {
+		params.Meta = Meta{"progressToken": "tok"}
+	}
+	_, err := cs.CallTool(context.Background(), params)
 	vAssert(err == nil && zzLookupCalls == 1, "C12.lookup.call-sent")
+	if callerMeta {
+		_, leaked := params.Meta[MetaKeyProtocolVersion]
+		vAssert(len(params.Meta) == 1 && !leaked, "C12.request-metadata-not-written-into-the-callers-params")
+	} else {
+		vAssert(params.Meta == nil, "C12.request-metadata-not-written-into-the-callers-params")
+	}
 	if listed && (!stale || relisted) {
 		vAssert(zzLookupSeen[0] == zzLookupTool, "C12.client-call-carries-the-definition-of-the-tool-it-listed")
 		vReach("known")
